@@ -124,6 +124,8 @@ type FnCtx struct {
 	escaped map[string]bool
 	tainted map[string]bool
 	usedCallAssert map[string]bool
+	subFns []string // embedded-struct reference functions declared so far
+	wmTerms []*smt.Term // loop watermarks declared so far
 	paramObj map[string]types.Object // contract parameter name -> the parameter's object
 	wmDeclared map[string]bool // loop watermarks declared so far in this run
 	devirtUsed map[string]string // function-valued fields resolved through a fieldis declaration
@@ -217,6 +219,8 @@ func (fc *FnCtx) reset(dry bool) {
 	fc.escaped = map[string]bool{}
 	fc.tainted = map[string]bool{}
 	fc.wmDeclared = map[string]bool{}
+	fc.subFns = nil
+	fc.wmTerms = nil
 	if dry {
 		fc.written = map[*ssa.BasicBlock]map[string]bool{}
 		fc.writtenRefs = map[*ssa.BasicBlock]map[string]map[string]*smt.Term{}
@@ -586,9 +590,21 @@ func (fc *FnCtx) subRef(key string, base *smt.Term) *smt.Term {
 		r := smt.Const("r!s", smt.Int)
 		app := smt.App(fn, smt.Int, r)
 		fc.S.Assert(smt.Forall([]*smt.Term{r}, smt.And(smt.Implies(smt.Lt(r, smt.IntLit(0)), smt.Lt(app, smt.IntLit(0))), smt.Implies(smt.Gt(r, smt.IntLit(0)), smt.Gt(app, smt.IntLit(0)))), []*smt.Term{app}), "an embedded struct is as fresh as the object containing it")
+		fc.subFns = append(fc.subFns, fn)
+		for _, wm := range fc.wmTerms {
+			fc.relateSubWm(fn, wm)
+		}
 	}
 	t := smt.App(fn, smt.Int, base)
 	return t
+}
+
+// relateSubWm: an embedded struct exists at a loop header exactly if the object
+// containing it does (it lies on the same side of the loop's watermark).
+func (fc *FnCtx) relateSubWm(fn string, wm *smt.Term) {
+	r := smt.Const("r!s", smt.Int)
+	app := smt.App(fn, smt.Int, r)
+	fc.S.Assert(smt.Forall([]*smt.Term{r}, smt.Iff(smt.Ge(app, wm), smt.Ge(r, wm)), []*smt.Term{app}), "an embedded struct is as old as the object containing it")
 }
 
 // newRef returns the reference of a freshly allocated object. Outside loops
@@ -777,6 +793,14 @@ func (fc *FnCtx) term(v Val) *smt.Term {
 		switch v.Loc.Kind {
 		case LStruct, LCell:
 			return v.Loc.Base
+		case LField:
+			// the address of a non-struct field used as a value (&s.msg passed to a decoder):
+			// an opaque non-nil reference determined by the object and the field
+			fn := "fptr!" + smt.Ident(v.Loc.Key)
+			fc.S.DeclareFun(fn, []smt.Sort{smt.Int}, smt.Int)
+			t := smt.App(fn, smt.Int, v.Loc.Base)
+			fc.S.Assert(smt.Gt(t, smt.IntLit(0)), "the address of a field is not nil")
+			return t
 		}
 		fc.refuse("interior pointer used as a first-class value (%v)", v)
 	}
